@@ -2,7 +2,8 @@
    bardic/compiler/parsing/validation.py.
 
    MODELLED HERE (function by function, same case order):
-     core.py   _strip_comments_outside_python, parse: imports section, @metadata block, @start,
+     core.py   _strip_comments_outside_python (story lines right-stripped: fix F17k), parse: imports
+               section, @metadata block (blank and `#` comment lines skipped: fix F17l), @start,
                passage headers (params, tags, name validation, location list), `#` comment lines,
                @render, @input, @hook / @unhook, @join marker and section counting, `->` jumps,
                `~` statements with multi-line continuation (Python's parser is the oracle
@@ -56,7 +57,9 @@ Definition tok_nl : token := TText nl.
 
 (* `skip` = continuation lines of a multi-line ~ statement still to be left untouched (the Python
    loop jumps over them with `i += consumed - 1`).  extract_multiline_expression(out, i, e) only
-   reads out[i+1:], which the pre-pass has not rewritten yet, i.e. the rest of the input. *)
+   reads out[i+1:], which the pre-pass has not rewritten yet, i.e. the rest of the input.
+   Fix F17k: a story line is stored right-stripped (`out[i] = bare.rstrip()`), with or without a
+   comment; the line that closes a Python block is stored as `bare` (`out[i] = bare`), as before. *)
 Fixpoint strip_comments_outside_python (rest : list string) (closer : option string)
          (in_story : bool) (skip : nat) : list string :=
   match rest with
@@ -76,14 +79,15 @@ Fixpoint strip_comments_outside_python (rest : list string) (closer : option str
           | None =>
               if in_story || startswith l ":: " || startswith stripped "@start " then
                 let in_story' := in_story || startswith l ":: " in
+                let out := rstrip bare in                              (* out[i] = bare.rstrip() *)
                 if startswith stripped "@py" then
-                  bare :: strip_comments_outside_python r (Some "@endpy") in_story' 0
+                  out :: strip_comments_outside_python r (Some "@endpy") in_story' 0
                 else if startswith stripped "<<py" then
-                  bare :: strip_comments_outside_python r (Some ">>") in_story' 0
+                  out :: strip_comments_outside_python r (Some ">>") in_story' 0
                 else if startswith stripped "~ " then
-                  let n := snd (extract_multiline_expression (bare :: r) 0 (drop 2 stripped)) in
-                  bare :: strip_comments_outside_python r None in_story' (n - 1)
-                else bare :: strip_comments_outside_python r None in_story' 0
+                  let n := snd (extract_multiline_expression (out :: r) 0 (drop 2 stripped)) in
+                  out :: strip_comments_outside_python r None in_story' (n - 1)
+                else out :: strip_comments_outside_python r None in_story' 0
               else l :: strip_comments_outside_python r None in_story 0
           end
       end
@@ -471,7 +475,8 @@ Definition parse_step (lines : list string) (i : nat) (line : string) (st0 : pst
       (* metadata block content *)
       let phase2 : pstate + (pstate * nat) :=
         if st_in_metadata st1 then
-          if negb (nonempty stripped) then inr (st1, S i)
+          (* fix F17l: `if not stripped or stripped.startswith("#"): i += 1; continue` *)
+          if negb (nonempty stripped) || startswith stripped "#" then inr (st1, S i)
           else if startswith line " " || startswith line (String (ascii_of_nat 9) EmptyString) then
             (* `":" in stripped` and `stripped.split(":", 1)` are one find_char *)
             match find_char stripped ":" with
